@@ -33,3 +33,19 @@ func FilterTG(p *prog.Program, log []Rec) []Rec {
 	}
 	return out
 }
+
+// FilterEngine projects a full observation log onto the records EngineTrace
+// (level M) explains: the engine's own flow-level traces and the driver's
+// actions.  visit / leave traces carry no information the flow trace does not
+// (the model emits them inside the same action).
+func FilterEngine(p *prog.Program, log []Rec) []Rec {
+	out := make([]Rec, 0, len(log))
+	for _, r := range log {
+		switch r.Ev {
+		case "init", "started", "newflow", "flow", "termination", "completion", "req", "ans", "error", "cease",
+			"ifp", "wait", "fin", "timeout", "blocked", "crash", "infra", "other":
+			out = append(out, r)
+		}
+	}
+	return out
+}
